@@ -9,7 +9,9 @@ R    = {"n":name,"p":null|[[name,value|null]…],"b":C}
 C    = [S…] (≥1)   S = [X…] (≥1)   X = {"e":E,"r":null|{"op":"*|?|+|#","m":null|[Mod…]},"s":bool}
 E    = {"k":"asgn","a":attr,"op":"=|+=|*=|?=","rhs":Rhs,"m":null|[Mod…]}
      | {"k":"lit","pr":P,"l":L} | {"k":"ref","pr":P,"n":name} | {"k":"grp","pr":P,"c":C}      P = null|"!"|"&"
-L    = {"k":"str","ok":bool} | {"k":"re","ok":bool}        Mod = {"k":"sep","l":L} | {"k":"eol"}
+L    = {"k":"str","ok":bool} | {"k":"re","ok":bool,"exc":null|"error"|"OverflowError"|"RecursionError"|"ValueError"|"other"}
+       ("exc": class of the exception re.compile raised; null exactly when ok)
+Mod  = {"k":"sep","l":L} | {"k":"eol"}
 Rhs  = {"k":"lit","l":L} | {"k":"ref","n":name} | {"k":"obj","cls":c,"rule":null|name,"rrel":bool}
 O    = "ok"|"syntax"|"semantic"|"txerror"|"registration"|"py:<Exception>"
 -/
@@ -26,11 +28,21 @@ def isNull (j : Json) (k : String) : Bool :=
   | .ok .null => true
   | _ => false
 
+/-- class of the exception `re.compile` raised (names the harness does not single out: `other`) -/
+def parsePyExc : String → Option PyExc
+  | "error" => some .reError | "OverflowError" => some .overflowError
+  | "RecursionError" => some .recursionError | "ValueError" => some .valueError
+  | "other" => some .other | _ => none
+
 def parseLit (j : Json) : Option Lit := do
   let ok ← getBool? j "ok"
   match ← getStr? j "k" with
   | "str" => pure (.str ok)
-  | "re" => pure (.re ok)
+  | "re" =>
+      -- "exc": null exactly when the pattern compiles
+      if isNull j "exc" then (if ok then pure (.re none) else none)
+      else if ok then none
+      else pure (.re (some (← parsePyExc (← getStr? j "exc"))))
   | _ => none
 
 def parseMod (j : Json) : Option Mod := do
@@ -134,6 +146,7 @@ def pyName : PyExc → String
   | .keyError => "KeyError" | .attributeError => "AttributeError" | .typeError => "TypeError"
   | .indexError => "IndexError" | .recursionError => "RecursionError" | .assertionError => "AssertionError"
   | .unicodeDecodeError => "UnicodeDecodeError" | .reError => "error"
+  | .overflowError => "OverflowError" | .valueError => "ValueError" | .other => "Exception"
 
 def outName : M Unit → String
   | .ok _ => "ok"
